@@ -8,6 +8,10 @@ ROOT = os.path.dirname(os.path.dirname(os.path.abspath(__file__)))
 
 
 def main():
+    import fcntl
+    lock = open("/tmp/.verif_repo.lock", "w")
+    fcntl.flock(lock, fcntl.LOCK_EX)  # no other check may build while the change is applied
+    os.environ["VCHECK_NOLOCK"] = "1"
     diff, tier, props = sys.argv[1], sys.argv[2], sys.argv[3:]
     st = subprocess.run(["git", "-C", "/repo", "status", "--porcelain", "--untracked-files=no"], stdout=subprocess.PIPE, text=True).stdout.strip()
     if st:
